@@ -67,6 +67,11 @@ CHECKS['C12'] = ('3/C12', 'For each of the 120 accepted correlation combinations
                  'path; no path may end in an exception (68 combinations do in the transition regime: recorded known finding); mass '
                  'conservation and signs of the split are SMT queries per path.  Pressure-gradient equalisation is outside (not built).')
 
+CHECKS['C03'] = ('3/C03', 'A real AssemblyPower built from symbolic non-negative polynomial profiles; presweep_setup and the sequence of '
+                 'get_power_sweep calls of a sweep run for arbitrary plane positions inside each power cell and for each placement of the '
+                 'pin-bundle bounds relative to the power mesh: deposited = assigned is an SMT query per configuration; _integrate vs closed '
+                 'form; core normalisation and scaling of every profile.')
+
 NOT_APPLICABLE = {
     'C16': ('No symbolic dimension for a solver: process schedules/multiprocessing/file output, bitwise IEEE determinism, and '
             'object-identity/type mutation of the input dictionary on `is None`/key-presence branches (DESIGN section 4).'),
